@@ -558,6 +558,9 @@ pub fn gen_random(rng: &mut Rng, cfg: &GenCfg) -> E1Scn {
             if rng.chance(1, 12) {
                 c.fail_wait = true;
             }
+            if rng.chance(1, 15) {
+                c.wait_fail_after = Some(*rng.pick(&[1u64, 5, 50, 500]));
+            }
         }
         if cfg.kill_lag && rng.chance(1, 4) {
             c.kill_lag = *rng.pick(&[1u64, 50, 1000, 6000, 60_000]);
@@ -599,6 +602,8 @@ pub struct ChildRec {
     pub reaped: Option<(u64, u32, i32)>,
     pub dropped: Option<(u64, u32, bool, bool)>, // t, seq, reaped, in_shutdown
     pub faults: u32,
+    /// of which: wait() failures (they do not end a control by themselves)
+    pub wait_faults: u32,
 }
 
 #[derive(Default, Debug)]
@@ -652,8 +657,10 @@ pub fn digest(out: &RunOut) -> Digest {
             Ev::Signal { child, sig, delivered } => {
                 d.children[*child as usize].signals.push((r.t, r.seq, *sig, *delivered))
             }
-            Ev::SignalFail { child, .. } | Ev::KillFail { child } | Ev::WaitFail { child } => {
-                d.children[*child as usize].faults += 1
+            Ev::SignalFail { child, .. } | Ev::KillFail { child } => d.children[*child as usize].faults += 1,
+            Ev::WaitFail { child } => {
+                d.children[*child as usize].faults += 1;
+                d.children[*child as usize].wait_faults += 1;
             }
             Ev::Kill { child } => d.children[*child as usize].kills.push((r.t, r.seq)),
             Ev::Exit { child, status } => d.children[*child as usize].exit = Some((r.t, *status)),
